@@ -10,7 +10,7 @@ ASSUMPTIONS = ['BitSet arguments inside the documented range [-16,47] (resp. [0,
                'CspSolver object built in place: std::vector members point at static arrays of sufficient capacity (no reallocation); log stream unused (silent=true)']
 
 def build(tier):
-    u = Unit('csp', 'C20/csp.cpp', ['h_bitset64', 'h_bitset192', 'h_arc', 'h_solve'],
+    u = Unit('csp', 'C20/csp.cpp', ['h_bitset64', 'h_bitset192', 'h_arc', 'h_solve', 'h_api'],
              allow_extern=[r'_ZStls.*', r'_ZNSols.*'])  # ostream output under if(!silent): silent is concretely true
     obs = [
         Ob('O1-bitset64', u, 'h_bitset64', 'BitSet<64,-16>: set/clear/getBit, setRange, removeSmaller/Larger, removeOdd/Even, getMin/MaxBit, bitCount, |=, &=, ==, empty vs set semantics',
@@ -22,6 +22,9 @@ def build(tier):
         Ob('O2-arc@self', u, 'h_arc', 'makeArcConsistent on a self constraint v <= v + c: sound and exact', unwind=10, param=1, timeout=1200,
            functions=['CspSolver::makeArcConsistent'], bounds='domain inside any window of 6 consecutive values; c in [-70,70]; loop bound 10'),
     ]
+    obs.append(Ob('O4-api', u, 'h_api', 'addIneq / addEq record exactly the stated relation in the normal form v1 <= v2 + c (GE swapped and negated, an equality as two inequalities), also between a variable and itself: nothing dropped, nothing added',
+                  unwind=6, timeout=600, functions=['CspSolver::addIneq (cspsolver.cpp:104-126)', 'CspSolver::addEq (cspsolver.hpp:117)', 'std::vector<Constraint>::emplace_back (capacity pre-reserved)'],
+                  bounds='variables 0..2, offsets in [-70,70], both operators; meaning compared on arbitrary assignments in [-16,47]', stubs=['the constraint vector has capacity for the records (libstdc++ reallocation is not exercised)']))
     units = [u]
     RECUR = '_ZN9CspSolver14solveRecursiveEiRSt6vectorIiSaIiEE'
     ARC = '_ZN9CspSolver17makeArcConsistentEv.0'
